@@ -423,7 +423,11 @@ def snapshot(tw, tmpdir, with_write=True):
         coll = getattr(p, attr)
         snap[attr] = [dump_object(o, 1) for o in coll._objects]
         snap[attr + ".keys"] = list(coll.keys())
-        snap[attr + ".get"] = [canon(coll.get(n), 0) for n in list(coll.keys())]
+        # by-number reads of the members AND of numbers that no member has (a rejected call must not leave a
+        # ghost behind that only a look-up by number shows: seeded change C14b)
+        extra_numbers = {o.number for o in tw.extras.values() if isinstance(getattr(o, "number", None), int)}
+        probes = list(coll.keys()) + sorted((set(range(0, 13)) | extra_numbers) - set(coll.keys()))
+        snap[attr + ".get"] = [[n, canon(coll.get(n), 0)] for n in probes]
     snap["data_inputs"] = [dump_object(o, 1) for o in p.data_inputs]
     snap["extras"] = {str(k): dump_object(o, 1) if isinstance(o, MCNP_Object) else canon(o) for k, o in sorted(tw.extras.items())}
     if with_write:
